@@ -257,10 +257,12 @@ static ld ref(const Basic &b, RefEnv &env)
                 r = x > 0 ? t : PI_L - t;
             }
             break;
-        case SYMENGINE_ACOT: // atan(1/x) = sign(x) pi/2 - atan(x)
-            r = (x == 0) ? std::numeric_limits<ld>::quiet_NaN() : ((x > 0 ? PI_L / 2 : -PI_L / 2) - atanl(x));
-            if (x == 0)
-                r = PI_L / 2; // atan(1/0) = atan(inf)
+        case SYMENGINE_ACOT: // atan(1/x) = sign(x) pi/2 - atan(x); discontinuous at 0 (and +-0 differ)
+            if (x == 0) {
+                env.bad = true;
+                return 0;
+            }
+            r = (x > 0 ? PI_L / 2 : -PI_L / 2) - atanl(x);
             break;
         case SYMENGINE_SINH: r = sinhl(x); break;
         case SYMENGINE_COSH: r = coshl(x); break;
@@ -278,11 +280,11 @@ static ld ref(const Basic &b, RefEnv &env)
             r = (x <= 0 || x > 1.0L) ? std::numeric_limits<ld>::quiet_NaN()
                                      : logl((1.0L + sqrtl((1.0L - x) * (1.0L + x))) / x);
             break;
-        case SYMENGINE_ACSCH: // asinh(1/x) = sign(x) log(1/|x| + sqrt(1/x^2+1))
+        case SYMENGINE_ACSCH: // asinh(t) = log1p(t + t^2/(1+sqrt(1+t^2))), t = 1/|x|
         {
-            ld ax = fabsl(x);
-            ld t = logl(1.0L / ax + sqrtl(1.0L / (ax * ax) + 1.0L));
-            r = x < 0 ? -t : t;
+            ld t = 1.0L / fabsl(x);
+            ld u = log1pl(t + t * t / (1.0L + sqrtl(1.0L + t * t)));
+            r = x < 0 ? -u : u;
             if (x == 0)
                 r = std::numeric_limits<ld>::quiet_NaN();
             break;
@@ -347,6 +349,10 @@ static std::string accuracy(const Basic &b, const vec_basic *syms, const std::ve
                             bool *checked, ld *tol_out = nullptr)
 {
     *checked = false;
+    if (vals)
+        for (double x : *vals)
+            if (!std::isfinite(x))
+                return ""; // the property is about finite inputs
     RefEnv e0 = {syms, vals, false, 0, false, 0};
     ld r0 = ref(b, e0);
     if (e0.bad)
@@ -404,17 +410,20 @@ static std::string guard(const std::function<std::string()> &f)
     }
 }
 
-static std::string run_expr(const std::string &rec)
+static void emit_fd(int fd, const std::string &s);
+
+static void run_expr(const std::string &rec, int wfd)
 {
     RCP<const Basic> e;
     try {
         e = recipe(rec);
     } catch (...) {
-        return "RECIPE-" + verif::exn_name();
+        emit_fd(wfd, "RECIPE-" + verif::exn_name());
+        return;
     }
-    std::ostringstream o;
     std::string d = verif::dump(*e);
-    o << d;
+    emit_fd(wfd, d); // from here on a crash is the evaluators'
+    std::ostringstream o;
     double v = 0, p = 0, s = 0, l = 0, f = 0;
     bool vok = false, pok = false, sok = false, lok = false, fok = false;
     std::string oracle;
@@ -468,7 +477,7 @@ static std::string run_expr(const std::string &rec)
     }
     if (!oracle.empty())
         o << "\t#ORACLE:" << oracle.substr(1);
-    return o.str();
+    emit_fd(wfd, o.str());
 }
 
 // ------------------------------------------------------------------ C13: a history
@@ -577,12 +586,15 @@ static std::string run_history(const std::string &line, int wfd)
             last = io;
             calls_since.clear();
             // reinit oracle, part 1: a fresh object must accept / reject the same init
-            std::string rf = verif::run_forked([&]() {
+            // ("~" marks the start of oracle work: a crash after it is not the visitor's)
+            emit("~");
+            {
                 LambdaRealDoubleVisitor fresh;
-                return init_result(fresh, io);
-            });
-            if (rf != r && rf.find("CRASH") == std::string::npos && rf.find("HANG") == std::string::npos)
-                oracle += " reinit(init gives " + r + ", a fresh object " + rf + ")";
+                std::string rf = init_result(fresh, io);
+                if (rf != r)
+                    oracle += " reinit(init gives " + r + ", a fresh object " + rf + ")";
+            }
+            emit(".");
         } else if (op.compare(0, 1, "C") == 0) {
             std::vector<double> inp;
             for (auto &h : verif::split_ws(op.substr(1)))
@@ -596,7 +608,8 @@ static std::string run_history(const std::string &line, int wfd)
             emit(r);
             if (have_init && last_ok) {
                 calls_since.push_back(inp);
-                std::string part = verif::run_forked([&]() {
+                emit("~");
+                std::string part = [&]() {
                     std::string orc;
                     // reinit oracle, part 2: same init + same calls on a fresh object
                     LambdaRealDoubleVisitor fresh;
@@ -639,9 +652,9 @@ static std::string run_history(const std::string &line, int wfd)
                             orc += " cse(" + std::string(last.cse ? "on " : "off ") + r + " vs " + r2 + ")";
                     }
                     return orc;
-                });
-                if (part.find("CRASH") == std::string::npos && part.find("HANG") == std::string::npos)
-                    oracle += part;
+                }();
+                emit(".");
+                oracle += part;
             }
         } else {
             return "BADCASE";
@@ -652,68 +665,97 @@ static std::string run_history(const std::string &line, int wfd)
     return "";
 }
 
-static std::string forked_history(const std::string &line)
+static void emit_fd(int fd, const std::string &s)
 {
-    int fd[2];
-    if (pipe(fd) != 0)
-        return "PIPEFAIL";
-    fflush(stdout);
-    pid_t pid = fork();
-    if (pid == 0) {
-        close(fd[0]);
-        alarm(30);
-        struct rlimit rl;
-        rl.rlim_cur = rl.rlim_max = 0;
-        setrlimit(RLIMIT_CORE, &rl);
-        int devnull = open("/dev/null", O_WRONLY);
-        if (devnull >= 0)
-            dup2(devnull, 2);
+    size_t off = 0;
+    while (off < s.size()) {
+        ssize_t w = write(fd, s.data() + off, s.size() - off);
+        if (w <= 0)
+            break;
+        off += (size_t)w;
+    }
+}
+
+static void process_line(const std::string &line, int wfd)
+{
+    if (line.compare(0, 2, "E ") == 0) {
+        try {
+            run_expr(line.substr(2), wfd);
+        } catch (...) {
+            emit_fd(wfd, "UNCAUGHT");
+        }
+    } else if (line.compare(0, 2, "H ") == 0) {
         std::string s;
         try {
-            s = run_history(line, fd[1]);
+            s = run_history(line.substr(2), wfd);
         } catch (...) {
             s = "UNCAUGHT";
         }
-        if (!s.empty())
-            (void)!write(fd[1], s.data(), s.size());
-        close(fd[1]);
-        _exit(0);
+        emit_fd(wfd, s);
+    } else {
+        emit_fd(wfd, "BADCASE");
     }
-    close(fd[1]);
-    std::string out;
-    char buf[65536];
-    ssize_t r;
-    while ((r = read(fd[0], buf, sizeof buf)) > 0)
-        out.append(buf, (size_t)r);
-    close(fd[0]);
-    int status = 0;
-    waitpid(pid, &status, 0);
-    if (WIFSIGNALED(status)) {
-        int sig = WTERMSIG(status);
-        if (sig == SIGALRM)
-            return out + "HANG";
-        return out + "CRASH:" + std::to_string(sig);
-    }
-    return out;
+    emit_fd(wfd, "\n");
 }
 
+// One worker process handles consecutive cases and streams its output; when it dies (signal,
+// timeout) the text written so far + CRASH:<sig>/HANG is the result of the case it was working on
+// and a new worker continues with the next case.  (fork per case is too slow on a loaded machine.)
 int main()
 {
+    std::vector<std::string> lines;
     std::string line;
-    while (std::getline(std::cin, line)) {
-        std::string out;
-        if (line.compare(0, 2, "E ") == 0) {
-            std::string rec = line.substr(2);
-            out = verif::run_forked([&]() { return run_expr(rec); }, 30);
-        } else if (line.compare(0, 2, "H ") == 0) {
-            out = forked_history(line.substr(2));
-        } else {
-            out = "BADCASE";
+    while (std::getline(std::cin, line))
+        lines.push_back(line);
+    size_t next = 0;
+    while (next < lines.size()) {
+        int fd[2];
+        if (pipe(fd) != 0)
+            return 3;
+        fflush(stdout);
+        pid_t pid = fork();
+        if (pid == 0) {
+            close(fd[0]);
+            struct rlimit rl;
+            rl.rlim_cur = rl.rlim_max = 0;
+            setrlimit(RLIMIT_CORE, &rl);
+            int devnull = open("/dev/null", O_WRONLY);
+            if (devnull >= 0)
+                dup2(devnull, 2);
+            for (size_t i = next; i < lines.size(); i++) {
+                alarm(30);
+                process_line(lines[i], fd[1]);
+            }
+            close(fd[1]);
+            _exit(0);
         }
-        for (char &ch : out)
-            if (ch == '\n')
-                ch = ' ';
-        std::cout << out << "\n";
+        close(fd[1]);
+        std::string cur;
+        char buf[65536];
+        ssize_t r;
+        while ((r = read(fd[0], buf, sizeof buf)) > 0) {
+            for (ssize_t k = 0; k < r; k++) {
+                if (buf[k] == '\n') {
+                    std::cout << cur << "\n";
+                    cur.clear();
+                    next++;
+                } else {
+                    cur += buf[k];
+                }
+            }
+        }
+        close(fd[0]);
+        int status = 0;
+        waitpid(pid, &status, 0);
+        if (next < lines.size()) {
+            if (WIFSIGNALED(status)) {
+                int sig = WTERMSIG(status);
+                std::cout << cur << (sig == SIGALRM ? std::string("HANG") : "CRASH:" + std::to_string(sig)) << "\n";
+            } else {
+                std::cout << cur << "DIED" << "\n";
+            }
+            next++;
+        }
         std::cout.flush();
     }
     return 0;
